@@ -610,8 +610,9 @@ def main(argv):
     if smism:
         i = smism[0]
         mt = model_text.get(i) or ("?", "?")
-        res.tie_broken("the spec (broadcast_spec/scalar_op) and the transcription (eval_binop) disagree when run: a "
-                       "hypothesis of the theorems (symmetry of equals on the operands) does not hold on this input",
+        res.tie_broken("the spec (broadcast_spec/scalar_op) and the transcription (eval_binop) disagree when run: the "
+                       "transcription does not refine the spec on this input, or a hypothesis of the theorems "
+                       "(symmetry of equals on the operands) does not hold on it",
                        "first: a = %s ; b = %s ; spec=%s ; transcription=%s"
                        % (cases[i][0].src(), cases[i][1].src(), mt[1], mt[0]))
 
